@@ -128,6 +128,10 @@ type World struct {
 	inCall           map[string]int // task -> the handler is inside a call into the framework (a nested OnClose is legal)
 	stopFailed       int
 	stopEventUsed    bool
+	stopPending      int
+	nestedHandled    bool
+	otherShutdown    bool // a Shutdown action was returned by a callback
+	nestedShutdown   int  // Shutdown actions returned by an OnClose that ran nested inside a handler call
 	cbAfterReturn    int
 	openedN, closedN int
 	countLo, countHi int
@@ -410,6 +414,7 @@ func (w *World) requestStop() {
 		n = 2
 	}
 	for i := 0; i < n; i++ {
+		w.stopPending++
 		w.s.Go("stopper", func() {
 			ctx, cancel := context.WithTimeout(context.Background(), 30*time.Second)
 			defer cancel()
@@ -421,10 +426,11 @@ func (w *World) requestStop() {
 			}
 			vsched.Yield("post-block")
 			w.logf("stop returned %v", err)
+			w.stopPending--
 			if err != nil && !errors.Is(err, context.DeadlineExceeded) {
 				// the request was refused (engine not registered yet / already stopped): it had no effect
 				w.stopFailed++
-				if !w.runDone && w.shutdownCount == 0 {
+				if !w.runDone && w.shutdownCount == 0 && w.stopPending == 0 && !w.stopReturned && !w.otherShutdown {
 					w.stopRequested = false
 				}
 				return
@@ -676,6 +682,16 @@ func (w *World) onQuiescent(idle int) int {
 			return vsched.QAgain
 		}
 		w.shutdownIdle++
+		if w.nestedShutdown > 0 && !w.otherShutdown && w.stopPending == 0 && !w.stopReturned && !w.nestedHandled {
+			// the only shutdown request so far is a Shutdown action returned by an
+			// OnClose that ran nested inside a handler call, and nothing happened
+			w.violate("C06", "shutdown-action-dropped/nested-onclose", "OnClose returned Shutdown while it ran nested inside a call made by the handler (EventLoop.Close / failing Write / Flush); the engine did not shut down (alive: %v)", w.s.Alive())
+			w.nestedHandled = true
+			w.stopRequested = false
+			w.shutdownIdle = 0
+			w.requestStop()
+			return vsched.QAgain
+		}
 		if w.shutdownIdle > 12 {
 			w.violate("C06", "hang", "shutdown was requested (%s) but Run has not returned after the system went quiet %d times; alive: %v", w.p.Stop.Source, w.shutdownIdle, w.s.Alive())
 			w.ph = phDone
